@@ -824,13 +824,15 @@ func (t *Tree) Compile(file string, args []string, out io.Writer) (err error) {
 					classes[i].s = set.NewSet()
 				}
 				elements := slices.Collect(n.Iterator())
+				rest := elements[len(elements):]
 				for c, element := range elements {
 					consumes, classes[c].s = optimizeAlternates(element)
 					if consumes {
-						elements, classes = elements[c+1:], classes[:c+1]
+						rest, classes = elements[c+1:], classes[:c+1]
 						break
 					}
 				}
+				elements = rest
 
 				for c := range slices.Backward(classes) {
 					s = s.Union(classes[c].s)
